@@ -7,7 +7,10 @@
 (*          of ONE entity and several entities),  d.ev  event types,                        *)
 (*   d.tt   subset of {"startup","shutdown","timer"},  d.svc  service names (aliases),      *)
 (*   d.resp supports_response in {"none","optional","only"},  d.sf  how the aliases are     *)
-(*          written ("stack": one @service per name, "args": one @service with all names).  *)
+(*          written ("stack": one @service per name, "args": one @service with all names),  *)
+(*   d.dup  the service names the function declares TWICE (a declaration is a multiset of   *)
+(*          names: @service("a.b", "a.b") / two stacked @service("a.b")): each entry is     *)
+(*          registered and counted, all of them go when the function goes.                  *)
 (* Generations are referenced from global names (bind), a list L and a dict slot D of their *)
 (* global context (cont).  Contexts: c1 (script file), c2 (app), c3 (Jupyter session),      *)
 (* c4 (a module, modules/mx.py: NOT loaded until some context imports it - at the top of a   *)
@@ -99,7 +102,9 @@ AllFlags == {"legacy-stop-before-first-run-leaks", "service-handler-not-repointe
              "dm-start-order-arbitrary", "dm-service-owner-is-evaluator-name", "dm-service-multi-arg-rejected",
              "session-import-module-not-started", "service-bookkeeping-keyed-by-spelling", "dm-stop-only-scheduled"}
 
-Dc(st, ev, tt, svc, resp, sf) == [st |-> st, ev |-> ev, tt |-> tt, svc |-> svc, resp |-> resp, sf |-> sf, alt |-> FALSE]
+Dc(st, ev, tt, svc, resp, sf) == [st |-> st, ev |-> ev, tt |-> tt, svc |-> svc, resp |-> resp, sf |-> sf, alt |-> FALSE, dup |-> {}]
+\* how often the declaration d lists the service name s
+Mult(d, s) == IF s \notin d.svc THEN 0 ELSE IF s \in d.dup THEN 2 ELSE 1
 \* the declarations; a configuration selects some by index (constant DeclSet)
 DeclList == <<
   Dc({}, {}, {}, {"s1"}, "none", "stack"),                                        \*  1 service
@@ -122,11 +127,14 @@ DeclList == <<
   Dc({}, {"e2"}, {}, {"s1", "S3"}, "optional", "stack"),                          \* 18
   Dc({"a"}, {"e1"}, {"startup"}, {"s2", "S3"}, "none", "args"),                   \* 19
   [Dc({}, {}, {}, {"s1"}, "none", "stack") EXCEPT !.alt = TRUE],                  \* 20 "pyscript.S1": the same name as in 1
-  [Dc({}, {"e1"}, {}, {"s2", "S3"}, "optional", "stack") EXCEPT !.alt = TRUE] >>  \* 21 "pyscript.S2", "pyscript.s3"
+  [Dc({}, {"e1"}, {}, {"s2", "S3"}, "optional", "stack") EXCEPT !.alt = TRUE],    \* 21 "pyscript.S2", "pyscript.s3"
+  [Dc({}, {}, {}, {"s1"}, "none", "args") EXCEPT !.dup = {"s1"}],                 \* 22 @service("pyscript.s1", "pyscript.s1")
+  [Dc({}, {"e1"}, {}, {"s1", "s2"}, "optional", "stack") EXCEPT !.dup = {"s2"}],  \* 23 s2 stacked twice, s1 once
+  [Dc({"a"}, {}, {}, {"s1", "S3"}, "none", "args") EXCEPT !.dup = {"s1", "S3"}] >>  \* 24 both names twice
 AllDecls == 1..Len(DeclList)
 \* declarations outside the loci of the known deviations (one name per entity; several names as arguments of one
 \* @service are no longer masked: repaired in the code)
-MaskedDecls == { i \in AllDecls : Cardinality(Ents(DeclList[i])) = Cardinality(DeclList[i].st) /\ ~DeclList[i].alt }
+MaskedDecls == { i \in AllDecls : Cardinality(Ents(DeclList[i])) = Cardinality(DeclList[i].st) /\ ~DeclList[i].alt /\ DeclList[i].dup = {} }
 Decls == { DeclList[i] : i \in DeclSet }
 Data == {"-", "p=1", "p=2,q=x"}
 \* Outgoing service calls from scripts (service.call(domain, name, **kw) and domain.name(**kw)).  A keyword is
@@ -227,7 +235,7 @@ Activate(w, g, zombie) ==
                             THEN "inert" ELSE "spurious"]
   ELSE [w EXCEPT !.G[g].s = IF zombie THEN "zombie" ELSE "live",
                  !.G[g].su = IF "startup" \in d.tt THEN @ + 1 ELSE @,
-                 !.cnt = [s \in Svc |-> IF s \in d.svc THEN @[s] + 1 ELSE @[s]],
+                 !.cnt = [s \in Svc |-> @[s] + Mult(d, s)],
                  !.own = [s \in Svc |-> IF s \in d.svc THEN RegCtx(w, g) ELSE @[s]],
                  !.hd  = [s \in Svc |-> IF s \in d.svc THEN g ELSE @[s]],
                  !.subs = [x \in Ent |-> IF x \in Ents(d) THEN @[x] \cup {g} ELSE @[x]],
@@ -240,7 +248,7 @@ Activate(w, g, zombie) ==
 \* keep: nothing of g's subscriptions / listeners is released (deviation only)
 Release(w, g, leak, newStatus, keep) ==
   LET d == w.G[g].d
-      cnt1 == [s \in Svc |-> IF s \in d.svc THEN w.cnt[s] - 1 ELSE w.cnt[s]]
+      cnt1 == [s \in Svc |-> w.cnt[s] - Mult(d, s)]
       rest(s) == Declarers(w, s) \ {g}
   IN [w EXCEPT !.G[g].s = newStatus,
                !.cnt = cnt1,
@@ -261,6 +269,8 @@ Deactivate(w, g, leak, keep) ==
   ELSE IF ~DmLate THEN Release(w, g, leak, "pending", keep)          \* subscriptions/services released at once
   ELSE [w EXCEPT !.G[g].s = "pending"]                           \* deviation (dm): everything stays until StopDeferred
 
+RECURSIVE SumMult(_, _)
+SumMult(S, s) == IF S = {} THEN 0 ELSE LET g == CHOOSE x \in S : TRUE IN Mult(G[g].d, s) + SumMult(S \ {g}, s)
 RECURSIVE FoldAct(_, _, _), FoldDeact(_, _, _, _)
 FoldAct(w, q, zs) == IF q = <<>> THEN w ELSE FoldAct(Activate(w, Head(q), Head(q) \in zs), Tail(q), zs)
 \* (a new generation that is unreferenced when the step completes ends with it, provided it was activated at all)
@@ -633,7 +643,7 @@ TablesEqualUnionOfActive ==
   Quiescent => /\ \A x \in Ent : subs[x] = { g \in LiveGens : x \in Ents(G[g].d) }
                /\ \A e \in Ev : lst[e] = { g \in LiveGens : e \in G[g].d.ev }
                /\ tm = { g \in LiveGens : "timer" \in G[g].d.tt }
-               /\ \A s \in Svc : cnt[s] = Cardinality({ g \in LiveGens : s \in G[g].d.svc })
+               /\ \A s \in Svc : cnt[s] = SumMult({ g \in LiveGens : s \in G[g].d.svc }, s)
 \* checked on every transition: an occurrence runs live generations only - at a quiescent point, in the window
 \* in which the end of a deactivation is still pending (Eager = FALSE), and right behind the statement that took
 \* the last reference away (tick): "after which no occurrence runs the old function"; at a quiescent point a
@@ -650,7 +660,7 @@ ShutdownOncePerRemoval ==
   \A g \in Gen : G[g].sd = IF G[g].s = "dead" /\ "shutdown" \in G[g].d.tt THEN 1 ELSE 0
 \* C12
 RegisteredIffCounted == { s \in Svc : hd[s] # 0 } = { s \in Svc : cnt[s] > 0 }
-CountIsLiveDeclarations == Quiescent => \A s \in Svc : cnt[s] = Cardinality({ g \in LiveGens : s \in G[g].d.svc })
+CountIsLiveDeclarations == Quiescent => \A s \in Svc : cnt[s] = SumMult({ g \in LiveGens : s \in G[g].d.svc }, s)
 HandlerIsLatestLiveDeclaration ==
   Quiescent => \A s \in Svc : LET ds == { g \in LiveGens : s \in G[g].d.svc } IN
                               hd[s] = IF ds = {} THEN 0 ELSE MaxOf(ds)
@@ -699,4 +709,7 @@ FailedLoad == \E c \in Ctx : c \notin loaded /\ ~unloaded /\ \E g \in Gen : G[g]
 MixedCaseRedeclared == \E g, h \in Gen : g < h /\ "S3" \in G[g].d.svc \cap G[h].d.svc /\ G[g].s = "dead" /\ G[h].s = "live"
 W_NoModuleOutlivesImporterNorFailedLoad == ~(ModuleOutlivesImporter /\ FailedLoad)
 W_NoMixedCaseRedeclaredNorFailedLoad == ~(MixedCaseRedeclared /\ FailedLoad)
+\* round 4: a function that declared a service name twice has ended while another declaration of the name lives on
+W_NoDuplicateDeclarationEnded == ~\E g, h \in Gen, s \in Svc : /\ G[g].s = "dead" /\ s \in G[g].d.dup
+                                                              /\ G[h].s = "live" /\ s \in G[h].d.svc /\ hd[s] = h
 =============================================================================
